@@ -20,7 +20,7 @@ func init() {
 			"(R-FOLDCONST) the call executes only after a loop over all children that leaves the function at the first child whose kind is not `constant`, and its arguments are those children's values in order; the absorption is gated by a constant child whose bool value is false under isAndOpNode / true under isOrOpNode of the same node, and installs that value. " +
 			"That results are never baked in at run time is C07's R-EFFECT. (R-OPRESOLVE) parser and folder resolve an operator name to the same function (built-in table first). NOT decided: that a folded value equals the run-time value.",
 		Run:       runC10,
-		Witnesses: c10Witnesses,
+		Witnesses: append(append([]Witness{}, statelessShapeWitnesses...), c10Witnesses...),
 	})
 }
 
@@ -193,6 +193,17 @@ func ruleStateless(w *World, r *Report, fn *ssa.Function) {
 		what := "return " + describe(ret.Results[0]) + ", " + describe(ret.Results[1])
 		b, isConst := constBool(ret.Results[0])
 		if !isConst {
+			// `return fn != nil, fn` with fn the registered operator of a listed name: (true, fn) or (false, nil)
+			if x, isEq, okn := nilCompare(ret.Results[0]); okn && !isEq && x == ret.Results[1] {
+				if lk, okl := x.(*ssa.Lookup); okl && isOwnName(lk.Index) {
+					if base, okf := loadOfField(lk.X, "Config", "OperatorMap"); okf && base == ssa.Value(cParam) {
+						r.Check(listFact(ret.Block(), isConfList), rule, pos, name, what,
+							"registered operator, approved exactly when the map entry is non-nil, under name == an element of c.StatelessOperators",
+							"a registered operator is approved without being listed in c.StatelessOperators")
+						continue
+					}
+				}
+			}
 			r.Fail(rule, pos, name, what, "the stateless answer is not a constant on this path")
 			continue
 		}
@@ -287,7 +298,13 @@ func ruleFoldOK(w *World, r *Report, call *ssa.Call) {
 		}
 		tn, fld, _, okf := fieldOf(st.Addr)
 		if !okf || tn != "astNode" {
-			return
+			// `*root = *other`: the whole record of a tree node is overwritten
+			if typeNameOf(deref(st.Addr.Type())) != "astNode" {
+				return
+			}
+			if _, isAlloc := st.Addr.(*ssa.Alloc); isAlloc {
+				return // a local copy, not the tree
+			}
 		}
 		pos := w.InstrPos(st)
 		what := describe(st.Addr) + " = " + describe(st.Val)
